@@ -62,6 +62,18 @@ DRIVERS = {
   | [v, s] => encR toString (validate_positive_int v (s == 1))''',
     'chunked_iter': '''
   | size :: has :: fill :: fuel :: xs => encR encLL (chunked_iter xs size (optOf has fill) fuel.toNat)''',
+    'chunked_nocount': '''
+  | size :: has :: fill :: fuel :: xs => encR encLL (chunked_nocount xs size (optOf has fill) fuel.toNat)''',
+    'unique_list': '''
+  | xs => encR encL (unique_list xs kf3)''',
+    'unique_list_nokey': '''
+  | xs => encR encL (unique_list_nokey xs)''',
+    'split_func': '''
+  | has :: ms :: xs => encR encLL (split_func xs (fun x => x % 3 == 0) (optOf has ms))''',
+    'split_value': '''
+  | sep :: has :: ms :: xs => encR encLL (split_value (fun a b => a == b) xs sep (optOf has ms))''',
+    'split_none': '''
+  | has :: ms :: xs => encR encLL (split_none (fun x => x == -999983) xs (optOf has ms))''',
     'unique_iter': '''
   | xs => encR encL (unique_iter xs kf3)''',
     'unique_iter_nokey': '''
@@ -81,8 +93,14 @@ DRIVERS = {
 }
 
 
+ALIAS = {'chunked_nocount': 'chunked_iter', 'unique_list': 'unique_iter', 'unique_list_nokey': 'unique_iter_nokey',
+         'split_func': 'split_iter_func', 'split_value': 'split_iter_value', 'split_none': 'split_iter_none'}
+
+
 def _cases(name, rng, quick):
     n = 150 if quick else 2500
+    if name in ALIAS:
+        return _cases(ALIAS[name], rng, quick)[:(60 if quick else 1000)]
     out = []
     if name == 'validate_positive_int':
         for v in range(-3, 6):
@@ -139,6 +157,19 @@ def _py(name, mod, toks):
         size, has, fill, fuel = toks[:4]
         xs = [it(x) for x in toks[4:]]
         return list(mod.chunked_iter(xs, size, **({'fill': it(fill)} if has else {})))
+    if name == 'chunked_nocount':
+        size, has, fill, fuel = toks[:4]
+        return mod.chunked([it(x) for x in toks[4:]], size, None, **({'fill': it(fill)} if has else {}))
+    if name == 'unique_list':
+        return mod.unique(list(toks), lambda x: x % 3)
+    if name == 'unique_list_nokey':
+        return mod.unique(list(toks), None)
+    if name == 'split_func':
+        return mod.split(list(toks[2:]), lambda x: x % 3 == 0, toks[1] if toks[0] else None)
+    if name == 'split_none':
+        return mod.split([it(x) for x in toks[2:]], None, toks[1] if toks[0] else None)
+    if name == 'split_value':
+        return mod.split(list(toks[3:]), _Obj(toks[0]), toks[2] if toks[1] else None)
     if name == 'unique_iter':
         return list(mod.unique_iter(list(toks), lambda x: x % 3))
     if name == 'unique_iter_nokey':
@@ -161,7 +192,7 @@ def _py(name, mod, toks):
 
 def _lean_tokens(name, toks):
     """the token list the Lean side gets (fuel marker resolved; `None` item of split_iter_none = the sentinel)"""
-    if name == 'chunked_iter' and toks[3] == FUEL_SHORT:
+    if name in ('chunked_iter', 'chunked_nocount') and toks[3] == FUEL_SHORT:
         return toks[:3] + [len(toks) - 4 + 1] + toks[4:]
     return toks
 
